@@ -263,10 +263,13 @@ func (path *Path) First(ctx context.Context, json any, opt ...exec.Option) (any,
 func (path *Path) Scan(src any) error {
 	switch src := src.(type) {
 	case nil:
+		// a NULL replaces whatever path held before, too
+		*path = Path{}
 		return nil
 	case string:
 		// if an empty Path comes from a table, we return a null Path
 		if src == "" {
+			*path = Path{}
 			return nil
 		}
 
@@ -281,6 +284,7 @@ func (path *Path) Scan(src any) error {
 	case []byte:
 		// if an empty Path comes from a table, we return a null Path
 		if len(src) == 0 {
+			*path = Path{}
 			return nil
 		}
 
